@@ -66,12 +66,15 @@ def std_cases(con, kind, spec, vector_rhs=True, foreign=True, int_range=(-300, 3
     return con
 
 
-def lit_or_ni(fn):
-    """reflected operators: the left operand must be a literal"""
+def lit_or_ni(fn, vec_op=None):
+    """reflected operators: the left operand is a literal, or (vec_op given) a vector of the same kind --
+    then the result is that of `b op a` with b the LEFT operand (dividend width for truncdiv, divisor width for mod / rem)"""
 
     def spec(sx, a, b):
         k = sem.literal(b)
         if k is None:
+            if vec_op is not None and sem.kind_of(b) is sem.kind_of(a) and sem.kind_of(a) is not None:
+                return sem.divop(sx, b, a, vec_op)
             return NotImplemented
         return fn(sx, a, k)
 
@@ -91,15 +94,17 @@ for K in (Unsigned, Signed):
 
     # ---- * -----------------------------------------------------------------------
     std_cases(contract(mod + "__mul__", PROPS), K, lambda sx, a, b: sem.mul(sx, a, b))
-    std_cases(contract(mod + "__rmul__", PROPS), K, lambda sx, a, b: sem.mul(sx, a, b), vector_rhs=False)
+    std_cases(contract(mod + "__rmul__", PROPS), K, lambda sx, a, b: sem.mul(sx, a, b), vector_rhs=True)
 
     # ---- division family -----------------------------------------------------------
     std_cases(contract(mod + "_cohdl_truncdiv_", PROPS), K, lambda sx, a, b: sem.divop(sx, a, b, "truncdiv"))
     std_cases(contract(mod + "__mod__", PROPS), K, lambda sx, a, b: sem.divop(sx, a, b, "mod"))
     std_cases(contract(mod + "_cohdl_rem_", PROPS), K, lambda sx, a, b: sem.divop(sx, a, b, "rem"))
-    std_cases(contract(mod + "_cohdl_rtruncdiv_", PROPS), K, lit_or_ni(lambda sx, a, k: sem.rdivop(sx, a, k, "truncdiv")), vector_rhs=False, foreign=False)
-    std_cases(contract(mod + "__rmod__", PROPS), K, lit_or_ni(lambda sx, a, k: sem.rdivop(sx, a, k, "mod")), vector_rhs=False, foreign=False)
-    std_cases(contract(mod + "_cohdl_rrem_", PROPS), K, lit_or_ni(lambda sx, a, k: sem.rdivop(sx, a, k, "rem")), vector_rhs=False, foreign=False)
+    # reflected division family: a same-kind VECTOR left operand is handled too (op.truncdiv(const_vector, x) ...);
+    # Unsigned._cohdl_rrem_ is the exception: it only takes literals
+    std_cases(contract(mod + "_cohdl_rtruncdiv_", PROPS), K, lit_or_ni(lambda sx, a, k: sem.rdivop(sx, a, k, "truncdiv"), "truncdiv"), vector_rhs=True, foreign=False)
+    std_cases(contract(mod + "__rmod__", PROPS), K, lit_or_ni(lambda sx, a, k: sem.rdivop(sx, a, k, "mod"), "mod"), vector_rhs=True, foreign=False)
+    std_cases(contract(mod + "_cohdl_rrem_", PROPS), K, lit_or_ni(lambda sx, a, k: sem.rdivop(sx, a, k, "rem"), "rem" if K is Signed else None), vector_rhs=True, foreign=False)
 
     # ---- shifts --------------------------------------------------------------------
     for nm, left in (("__lshift__", True), ("__rshift__", False)):
